@@ -19,7 +19,7 @@ def rule_r1(chk, db):
              {"v4_check_header_auth", "v4_check_presigned_url", "v4_check_post_signature"} <= {short(callee_def(t)) for _, t in b.calls()}]
     if len(cands) != 1:
         raise AnchorMissing("expected one dispatcher calling the three V4 verifiers, found %d" % len(cands))
-    b = cands[0]
+    b = inline.inlined(db, cands[0])        # a classifier helper (`fn v4_source(&self) -> Option<Kind>`) is part of the dispatcher
     rw = flow.return_writes(b)
     nones = [w for w in rw if w["kind"] == "None"]
     somes = [w for w in rw if w["kind"] == "Some"]
